@@ -52,15 +52,18 @@ type schedule struct {
 	srcChunk    int // chunking of the encoded stream
 	eofWithData bool
 	dstSize     func(rs int) int // size of the buffer handed to decoder.Read
+	sniff       int              // with io.Copy: one Read of this many bytes first
 }
 
 var schedules = []schedule{
-	{"whole/rs", 0, false, func(rs int) int { return rs }},
-	{"1byte-src/7", 1, false, func(rs int) int { return 7 }},
-	{"whole/1", 0, false, func(rs int) int { return 1 }},
-	{"5byte-src/rs+33", 5, true, func(rs int) int { return rs + 33 }},
-	{"whole/64K", 0, true, func(rs int) int { return 65536 }},
-	{"3byte-src/io.Copy", 3, false, nil}, // drained with io.Copy (uses the decoder's WriteTo when it has one)
+	{"whole/rs", 0, false, func(rs int) int { return rs }, 0},
+	{"1byte-src/7", 1, false, func(rs int) int { return 7 }, 0},
+	{"whole/1", 0, false, func(rs int) int { return 1 }, 0},
+	{"5byte-src/rs+33", 5, true, func(rs int) int { return rs + 33 }, 0},
+	{"whole/64K", 0, true, func(rs int) int { return 65536 }, 0},
+	{"3byte-src/io.Copy", 3, false, nil, 0},    // drained with io.Copy (uses the decoder's WriteTo when it has one)
+	{"whole/sniff5+io.Copy", 0, false, nil, 5}, // a consumer that looks at the first bytes with Read and copies the rest
+	{"5byte-src/sniff1+io.Copy", 5, true, nil, 1},
 }
 
 var n int
@@ -117,6 +120,18 @@ func one(r *mon.Run, d draft, payload []byte, rs int, class string, scheds []sch
 			}
 			if sc.dstSize == nil {
 				var sink bytes.Buffer
+				if sc.sniff > 0 {
+					first := make([]byte, sc.sniff)
+					k, e := dec.Read(first)
+					sink.Write(first[:k])
+					if e != nil {
+						out = sink.Bytes()
+						if e != io.EOF {
+							derr = e
+						}
+						return
+					}
+				}
 				_, derr = io.Copy(&sink, dec)
 				out = sink.Bytes()
 				return
